@@ -94,6 +94,14 @@ def check_metrics(inp):
   got = float(res(M.SequenceCrossEntropyLoss(masked_target_values=mvs).evaluate_example(exs, pr)))
   if abs(got - mean((tl * w).sum(), 1.0 if w.any() else 0.0)) > 1e-4:
     return 'SequenceCrossEntropyLoss differs'
+  # saturated logits: every non-masked token is predicted with a gap of 40, so its float32 loss is exactly 0;
+  # the sequence still counts (weight 1) whenever it has a non-masked token
+  sat = np.zeros_like(sc)
+  sat[np.arange(L), tg] = 40.0
+  st_sat = M.SequenceCrossEntropyLoss(masked_target_values=mvs).evaluate_example(exs, jnp.asarray(sat))
+  if float(st_sat.weight) != (1.0 if w.any() else 0.0):
+    return (f'SequenceCrossEntropyLoss on saturated logits: weight {float(st_sat.weight)}, the definition says '
+            f'{1.0 if w.any() else 0.0} (targets {tg.tolist()}, masked values {mvs})')
   if float(res(M.SequenceTokenCount(masked_target_values=mvs).evaluate_example(exs, pr))) != w.sum():
     return 'SequenceTokenCount differs'
   if float(res(M.SequenceCount(masked_target_values=mvs).evaluate_example(exs, pr))) != float(w.any()):
